@@ -338,6 +338,23 @@ def TagList.read (t : TagList) (text : Str) : Except ReadErr TagList :=
 def TagList.getProducts (t : TagList) : List (List Str) :=
   t.products.map fun p => p :: (assocGet t.info p).getD []
 
+/-- `deleteProduct` -/
+def TagList.deleteProduct (t : TagList) (product : Str) : TagList :=
+  { t with products := t.products.filter (· ≠ product), info := assocDel t.info product }
+
+/-- `mergeProductList(other)`: `addProduct(p[0], p[2], p[1], p[3:])` for every row of `other.getProducts()` -/
+def TagList.mergeProductList (t other : TagList) : TagList :=
+  other.getProducts.foldl (fun t row =>
+    match row with
+    | p :: fl :: ver :: extra => t.addProduct p ver (some fl) extra
+    | _ => t) t
+
+/-- `getProducts(sort=True)` sorts `self.products` in place before it lists them -/
+def TagList.sortInPlace (t : TagList) : TagList := { t with products := sortStrs t.products }
+
+/-- `getProductInfo(product)`: `[flavor, version, extra…]`, `none` = `[None, None]` -/
+def TagList.getProductInfo (t : TagList) (product : Str) : Option (List Str) := assocGet t.info product
+
 /-! ## Mapping -/
 
 /-- flavor ↦ product ↦ inVersion ↦ (outProduct, outVersion); an out-version `none` = "remove this version" -/
